@@ -155,6 +155,7 @@ func oracleNumberOK(s string) bool {
 }
 
 func runC18(c *ctx) {
+	stmtC18(c)
 	c.rep.Rule = "doubles: integers, decimal fractions with 0..6 digits incl. exact ties, values one ulp next to ties, powers of ten 1e-12..1e21, 0, -0, negatives, integers below 2^53; " +
 		"precisions -6..12 with |x|*10^p < 2^53; bases 0..40 incl. fractional; number-like strings up to length 6 (exhaustive to length 3 / 4 over a 9-symbol alphabet); " +
 		"pictures generated from the decimal-format grammar and mutated; every result compared with the Lean model and with math/big / strconv oracles"
